@@ -12,7 +12,8 @@ open SJ SJ.Model.FromValue
     hypothesis "the printer / parser pair returns the floats of the value" is C07's round trip (`c07_correct` +
     the named hypothesis `RyuShortest` about the external printer `ryu`: shortest digits, at most 24 bytes, written with a
     fraction or an exponent, the exact value rounding to the float). A float under a 128-bit integer target is included (the
-    proviso `floatsPointed` of `c16_text_agrees_partial` is part of `RyuShortest`). Still missing: `arbitrary_precision`. -/
+    proviso `floatsPointed` of `c16_text_agrees_partial` is part of `RyuShortest`). `arbitrary_precision`: `c16_text_agrees_ap_fr`
+    (`Props/C16ApFloat.lean`). -/
 theorem c16_text_agrees_fr (mcfg : Model.Machine.Cfg) (hfr : mcfg.fr = true) (hap : mcfg.ap = false) (src : Model.Machine.Src)
     (ext : Spec.Program.Ext) (hext : Spec.Program.ExtOK ext) (hr : SJ.Proofs.LexTopRoundtrip.RyuShortest ext) (ext' : Ext)
     (s : Schema) (hs : Proofs.Typed.agreeFrag2 s = true)
